@@ -46,26 +46,26 @@ def _handler_swallows(h: ast.ExceptHandler) -> bool:
     return not isinstance(last, ast.Raise)
 
 
-def rule_sqlregion(program, ctx):
-    rid = ctx.rule(
-        "C07.sqlregion",
+def rule_sqlregion(program, ctx, prop=P, rid="C07.sqlregion"):
+    ctx.rule(
+        rid,
         "DBStorage.add_event: exactly one transaction region; pre_save, INSERT and post_save are lexically inside it; in the closure "
         "(pre_save, post_save, process_tags incl. overrides reached through self.*) every `.execute(` is applied to the connection parameter "
         "handed down from the region, no begin/connect/commit/rollback, no try whose handler swallows around an execute; "
         "return and broadcast are outside the region",
-        floor=6,
+        floor=4,
     )
     ae = program.func("nostr_relay.storage.db:DBStorage.add_event")
     regions = [w for w in walk_no_nested(ae) if isinstance(w, ast.AsyncWith) and any(_is_begin(i.context_expr) for i in w.items)]
     if len(regions) != 1:
-        ctx.bad(finding_func(P, rid, ae, f"add_event opens {len(regions)} transaction regions: the effects of one event are split over several commits "
+        ctx.bad(finding_func(prop, rid, ae, f"add_event opens {len(regions)} transaction regions: the effects of one event are split over several commits "
                              "(a failure or crash between them leaves the event half applied)", text="def add_event(...) :: regions"))
         if not regions:
             return
     region = regions[0]
     handle = next((i.optional_vars.id for i in region.items if _is_begin(i.context_expr) and isinstance(i.optional_vars, ast.Name)), None)
     if handle is None:
-        ctx.bad(finding_at(P, rid, region, "the transaction handle is not bound to a name"))
+        ctx.bad(finding_at(prop, rid, region, "the transaction handle is not bound to a name"))
         return
     ctx.ok(rid, region, f"single region `async with self.db.begin() as {handle}`")
     inside = {id(n) for n in ast.walk(region)}
@@ -79,20 +79,20 @@ def rule_sqlregion(program, ctx):
         if id(c) in inside:
             ctx.ok(rid, c, f"{call_name(c)} inside the region")
         else:
-            ctx.bad(finding_at(P, rid, c, f"`{call_name(c)}` runs outside the transaction that inserts the event: its effects commit (or fail) separately"))
+            ctx.bad(finding_at(prop, rid, c, f"`{call_name(c)}` runs outside the transaction that inserts the event: its effects commit (or fail) separately"))
     for c in walk_no_nested(ae):
         if isinstance(c, ast.Call) and call_name(c).endswith(".execute") and dotted(c.func.value) != handle:
-            ctx.bad(finding_at(P, rid, c, f"a statement of add_event is executed on `{dotted(c.func.value)}`, not on the region's handle `{handle}`"))
+            ctx.bad(finding_at(prop, rid, c, f"a statement of add_event is executed on `{dotted(c.func.value)}`, not on the region's handle `{handle}`"))
     for r in walk_no_nested(ae):
         if isinstance(r, ast.Return) and id(r) in inside:
-            ctx.bad(finding_at(P, rid, r, "return from inside the region (acknowledged before commit)"))
+            ctx.bad(finding_at(prop, rid, r, "return from inside the region (acknowledged before commit)"))
         if isinstance(r, ast.Call) and call_name(r).endswith(("notify_all_connected", "notify_other_processes")) and id(r) in inside:
-            ctx.bad(finding_at(P, rid, r, "broadcast inside the region (before commit)"))
+            ctx.bad(finding_at(prop, rid, r, "broadcast inside the region (before commit)"))
     # handlers inside the region
     for t in ast.walk(region):
         if isinstance(t, ast.Try) and t.handlers and any(_handler_swallows(h) for h in t.handlers):
             if any(isinstance(c, ast.Call) and (call_name(c).endswith(".execute") or call_name(c).startswith("self.p")) for s in t.body for c in ast.walk(s)):
-                ctx.bad(finding_at(P, rid, t, "a try inside the region swallows an exception raised by a write: the transaction commits half of the event's effects"))
+                ctx.bad(finding_at(prop, rid, t, "a try inside the region swallows an exception raised by a write: the transaction commits half of the event's effects"))
     # closure
     seen = {}
     work = []
@@ -115,7 +115,7 @@ def rule_sqlregion(program, ctx):
             if id(fn) in seen:
                 continue
             seen[id(fn)] = (fn, hp)
-            _check_closure_fn(program, ctx, rid, fn, hp)
+            _check_closure_fn(program, ctx, rid, fn, hp, prop)
             for c2 in walk_no_nested(fn):
                 if isinstance(c2, ast.Call) and call_name(c2).startswith("self.") and call_name(c2).split(".")[1] in ("pre_save", "post_save", "process_tags"):
                     work.append((c2, fn))
@@ -125,13 +125,13 @@ def rule_sqlregion(program, ctx):
                         if id(nxt) not in seen:
                             # **kwargs pass-through keeps the keyword name
                             seen[id(nxt)] = (nxt, "connection" if "connection" in [a.arg for a in nxt.args.args] else hp)
-                            _check_closure_fn(program, ctx, rid, nxt, seen[id(nxt)][1])
+                            _check_closure_fn(program, ctx, rid, nxt, seen[id(nxt)][1], prop)
                             for c3 in walk_no_nested(nxt):
                                 if isinstance(c3, ast.Call) and call_name(c3).startswith("self.") and call_name(c3).split(".")[1] in ("pre_save", "post_save", "process_tags"):
                                     work.append((c3, nxt))
 
 
-def _check_closure_fn(program, ctx, rid, fn, hp):
+def _check_closure_fn(program, ctx, rid, fn, hp, prop):
     q = qual_of(fn)
     writes = 0
     for c in walk_no_nested(fn):
@@ -144,14 +144,14 @@ def _check_closure_fn(program, ctx, rid, fn, hp):
                 writes += 1
                 ctx.ok(rid, c, f"{q}: execute on the region's handle `{hp}`")
             else:
-                ctx.bad(finding_at(P, rid, c, f"{q}: statement executed on `{recv}`, which is not the transaction handle handed down by add_event"))
+                ctx.bad(finding_at(prop, rid, c, f"{q}: statement executed on `{recv}`, which is not the transaction handle handed down by add_event"))
         if nm.endswith((".begin", ".commit", ".rollback")) or (nm.endswith(".connect") and "db" in nm):
             # read-only helper queries of the forwarding recipe use run_single_query (own connection): not a write
-            ctx.bad(finding_at(P, rid, c, f"{q}: `{nm}()` inside the closure of the event's transaction: part of the event's effects is committed separately"))
+            ctx.bad(finding_at(prop, rid, c, f"{q}: `{nm}()` inside the closure of the event's transaction: part of the event's effects is committed separately"))
     for t in walk_no_nested(fn):
         if isinstance(t, ast.Try) and t.handlers and any(_handler_swallows(h) for h in t.handlers):
             if any(isinstance(c, ast.Call) and call_name(c).endswith(".execute") for s in t.body for c in ast.walk(s)):
-                ctx.bad(finding_at(P, rid, t, f"{q}: a handler swallows an exception raised by a write inside the event's transaction"))
+                ctx.bad(finding_at(prop, rid, t, f"{q}: a handler swallows an exception raised by a write inside the event's transaction"))
     if fn.name == "post_save" and "DBStorage" not in q and writes == 0:
         ctx.info(rid, fn, f"{q}: no writes (read-only/network work while the region is open - listed, not a violation of atomicity)")
 
@@ -163,7 +163,7 @@ def rule_kvregion(program, ctx):
         "`with env.begin(write=True)`; the `except Exception` that logs encloses the with (abort first) and is inside the while (later tasks "
         "still applied); closure (Index.write/clear/bulk_update, _post_save, _delete_event): put/delete/cursor only on the txn parameter, no "
         "begin(), no enqueueing of follow-up tasks, no try around a write",
-        floor=8,
+        floor=3,
     )
     run = program.func("nostr_relay.storage.kv:WriterThread.run")
     regions = [w for w in walk_no_nested(run) if isinstance(w, ast.With) and any(_is_begin(i.context_expr) and any(k.arg == "write" and isinstance(k.value, ast.Constant) and k.value.value is True for k in i.context_expr.keywords) for i in w.items)]
@@ -259,7 +259,7 @@ def rule_cascade(program, ctx):
         "C07.cascade",
         "tags.id is a foreign key with ondelete=\"CASCADE\" in storage.get_metadata() and in the alembic migration; _set_sqlite_pragma issues "
         "PRAGMA foreign_keys = ON and is registered as connect listener for non-postgres engines (otherwise superseded/deleted events leave tag rows)",
-        floor=3,
+        floor=2,
     )
     gm = program.func("nostr_relay.storage:get_metadata")
     fk = [c for c in ast.walk(gm) if isinstance(c, ast.Call) and call_name(c) == "sa.ForeignKey"]
@@ -298,7 +298,7 @@ def rule_foreign(program, ctx, prop=P, rid="C07.foreign"):
         rid,
         "every class in the INDEXES registry implements write/clear in terms of its txn parameter; an index that commits to another store "
         "from inside the LMDB transaction is not rolled back when that transaction aborts",
-        floor=6,
+        floor=3,
     )
     kv = program.module("nostr_relay.storage.kv")
     reg = next((s.value for s in kv.tree.body if isinstance(s, ast.Assign) and any(isinstance(t, ast.Name) and t.id == "INDEXES" for t in s.targets) and isinstance(s.value, ast.Dict)), None)
